@@ -8,8 +8,9 @@ From GL Require Import Gen.TablesGen.
 Import ListNotations.
 Open Scope string_scope.
 
-(* the only methods that assign attributes of self: construction and chunk unification *)
-Definition state_mutators : list string := ["__init__"; "_factorize_group_key_in_chunks"; "_unify_group_key_chunks"].
+(* the only methods that assign attributes of self: construction (with its two helpers) and chunk unification *)
+Definition state_mutators : list string :=
+  ["__init__"; "_factorize_group_key_in_chunks"; "_order_boolean_labels_by_first_appearance"; "_unify_group_key_chunks"].
 (* what unification may assign: the codes and the pointer tables — never the labels *)
 Definition unify_may_write : list string := ["_group_ikey"; "_group_key_pointers"].
 
